@@ -52,6 +52,8 @@ type concCase struct {
 	Workers [][]call `json:"workers"`
 	Closers []closer `json:"closers"`
 	DevSeed uint64   `json:"dev_seed"`
+	// CloseDelayUs: the transport's Close takes this long (widens the window in which Close holds the client's lock)
+	CloseDelayUs int `json:"close_delay_us,omitempty"`
 }
 
 func framingOf(kind string) spec.Framing {
@@ -123,7 +125,7 @@ func runConc(c concCase) harness.Result {
 		defer runtime.GOMAXPROCS(old)
 	}
 	f := framingOf(c.Kind)
-	mon := &xport.Monitor{F: f, Dev: device.New(c.DevSeed), Serial: c.Kind == "serial"}
+	mon := &xport.Monitor{F: f, Dev: device.New(c.DevSeed), Serial: c.Kind == "serial", CloseDelay: time.Duration(c.CloseDelayUs) * time.Microsecond}
 	// per-request plan: looked up by arrival index -> we do not know which call arrives n-th, so derive from the request itself
 	plans := map[uint16]call{}
 	for w, calls := range c.Workers {
@@ -376,11 +378,16 @@ func genConc(t *rapid.T) concCase {
 		}
 		c.Workers = append(c.Workers, calls)
 	}
-	if c.Kind != "serial" && rapid.IntRange(0, 2).Draw(t, "closers") == 0 {
+	if rapid.IntRange(0, 2).Draw(t, "closers") == 0 {
 		k := rapid.IntRange(1, 3).Draw(t, "nclosers")
-		for i := 0; i < k; i++ {
-			c.Closers = append(c.Closers, closer{AtRequest: rapid.IntRange(1, total).Draw(t, "at"), Op: rapid.SampledFrom([]string{"close", "connect", "close-connect"}).Draw(t, "op")})
+		ops := []string{"close", "connect", "close-connect"}
+		if c.Kind == "serial" {
+			ops = []string{"close"} // the serial client has no Connect
 		}
+		for i := 0; i < k; i++ {
+			c.Closers = append(c.Closers, closer{AtRequest: rapid.IntRange(1, total).Draw(t, "at"), Op: rapid.SampledFrom(ops).Draw(t, "op")})
+		}
+		c.CloseDelayUs = rapid.SampledFrom([]int{0, 200, 1000, 3000}).Draw(t, "close_delay")
 	}
 	return c
 }
